@@ -1,0 +1,27 @@
+//go:build verif
+
+package parser
+
+import "github.com/antlr4-go/antlr/v4"
+
+// Exports for the verification harness (build tag verif only).
+
+func VerifNormalizeWhitespace(s string) string { return normalizeWhitespace(s) }
+
+// VerifTokens returns the token types the lexer produces for a query (after the same white-space
+// normalisation ParseQuery applies) and whether the lexer reported an error.
+func VerifTokens(s string) (types []int, texts []string, lexError bool) {
+	lexer := NewQueryLexer(antlr.NewInputStream(normalizeWhitespace(s)))
+	el := &customErrorListener{}
+	lexer.RemoveErrorListeners()
+	lexer.AddErrorListener(el)
+	for {
+		t := lexer.NextToken()
+		if t.GetTokenType() == antlr.TokenEOF {
+			break
+		}
+		types = append(types, t.GetTokenType())
+		texts = append(texts, t.GetText())
+	}
+	return types, texts, len(el.errors) > 0
+}
